@@ -83,7 +83,7 @@ def encode_value(v: Val):
 def build(rng, tree: dict, *, ntables: int = 1, seqs=(3, 7), stale_tables: int = 0, free_prob: float = 0.15, table_order: str = "shuffle",
           extra_object_tables: int = 0, alignment: int = 0x1000, trailer_mode: str = "12", version: int = 0x400, replay_entries: int = 0,
           stale_same_layout: bool = True, first_table_pages: int = 1, pad_objects: int = 0,
-          inactive_slot: str = "valid"):
+          inactive_slot: str = "valid", emptied_tables: int = 0):
     # first_table_pages: room reserved for the first object table at 0x2000 (its length is given by its entry count, not by
     # a fixed page); pad_objects: that many additional unallocated entries, so that a single table can exceed one page
     """Serialise `tree` ({key: Val | dict}) into a HyperVStorage file. -> (bytes, meta)"""
@@ -216,6 +216,20 @@ def build(rng, tree: dict, *, ntables: int = 1, seqs=(3, 7), stale_tables: int =
                 sb = bytearray(struct.pack("<HHHI", SIG_KEYTABLE, idx, sseq, 0))
                 sb += entry(T_NODE, 0, 0, 0, b"STALE", b"\0" * 12, trailer=0)
                 sb += entry(T_INT, 0, idx, 10, b"stale-child", struct.pack("<q", -1))
+            ssize = -(-len(sb) // alignment) * alignment
+            soff = alloc(ssize)
+            table_blobs.append((soff, bytes(sb).ljust(ssize, b"\0")))
+            objs.append((O_KEYTABLE, soff, ssize, 1))
+    # key tables that have been emptied: the newest generation of the index holds no entries at all (header, then zeros),
+    # an older generation of the same index still has some - they were deleted and must not come back
+    for k in range(emptied_tables):
+        idx = ntables + 1 + k
+        newest = rng.randrange(2, 60000)
+        for gen_seq, filled in [(rng.randrange(0, newest), True), (newest, False)]:
+            sb = bytearray(struct.pack("<HHHI", SIG_KEYTABLE, idx, gen_seq, 0))
+            if filled:
+                sb += entry(T_NODE, 0, 0, 0, f"DELETED{k}".encode(), b"\0" * 12, trailer=0)
+                sb += entry(T_INT, 0, idx, 10, b"deleted-child", struct.pack("<q", -1))
             ssize = -(-len(sb) // alignment) * alignment
             soff = alloc(ssize)
             table_blobs.append((soff, bytes(sb).ljust(ssize, b"\0")))
